@@ -1,4 +1,5 @@
 import HappyProofs.C07.NoPast
+import HappyProofs.C07.Rearm
 /-!
 # C07 — property theorems
 
@@ -20,6 +21,13 @@ What Lean carries (on the engine model of C01, for **every** `Machine`, i.e. eve
 * `spin_witness_unbounded` — `EmitsGeNow` alone does not bound an instant: the zero-delay poll
   (`while not flag: yield 0.0`) delivers `n` events at clock 0 for every `n`.
 * `judge_none_iff_holds` — the executable judge used on monitored traces is the predicate `Holds`.
+
+* `Rearm.old_rearms_same_instant`, `Rearm.old_spins`, `Rearm.old_unbounded` (file `Rearm.lean`) — the one
+  component whose timer *is* modelled: `ShiftedServer`'s self-perpetuating `_ShiftChange` event.  The old
+  timer ("next boundary strictly after the clock reading") re-arms at the current instant forever at every
+  boundary that loses a nanosecond in `Instant.from_seconds` (2.05 s, 1.001 s, …); the timer that exists
+  (`Rearm.chain`) handles each boundary once, in order, never before the clock, exactly at the boundary's
+  instant (`chain_length_le`, `chain_not_past`, `chain_indices`, `chain_exact`).
 
 Whether each *library component* satisfies `EmitsGeNow` and terminates its instants is not a Lean
 statement here (components have no model in C07): the monitored scenario runs decide it, judged by
